@@ -45,7 +45,7 @@ type jManifest struct {
 	Registry []jReg `json:"registry,omitempty"`
 }
 
-var mDirNames = []string{"aGFzaDE", "aGFzaDI", "dir3", "..", ".", "", "a/b", "a\\b", "/abs", "a/..", "./a", "..x", "x..", "é", "a b", "aGFzaDE/", "-"}
+var mDirNames = []string{"aGFzaDE", "aGFzaDI", "dir3", "dir30", "..", ".", "", "a/b", "a\\b", "/abs", "a/..", "./a", "..x", "x..", "é", "a b", "aGFzaDE/", "-"}
 var mPkgAddrs = []string{"git::https://example.com/p0.git", "git::https://example.com/p1.git", "https://example.com/a2.tar.gz", "git::https://example.com/p0.git?ref=v1",
 	"git::https://example.com/p0.git//sub", "http://example.com/x.tgz", "not an address", "", "git::https://EXAMPLE.com/p0.git", "github.com/org/repo"}
 var mRegAddrs = []string{"example.com/ns/m0/aws", "ns/m1/aws", "example.com/ns/m0/aws//sub", "bad", ""}
@@ -60,7 +60,7 @@ func genManifest(r *Rng) *jManifest {
 	valid := r.Chance(55) // mostly-valid stream
 	np := r.Intn(4)
 	for i := 0; i < np; i++ {
-		p := jPkg{Source: mPkgAddrs[r.Intn(4)], Local: mDirNames[r.Intn(3)]}
+		p := jPkg{Source: mPkgAddrs[r.Intn(4)], Local: mDirNames[r.Intn(4)]}
 		if !valid || r.Chance(10) {
 			if r.Chance(50) {
 				p.Source = r.Pick(mPkgAddrs)
@@ -194,7 +194,7 @@ func openDirSafe(dir string) (b *sourcebundle.Bundle, err error, pan interface{}
 
 func init() {
 	lanes["bundle"] = func(cfg *Config, rep *Report) {
-		rep.Rule = "manifest documents generated field-wise (format number, 0..3 packages over 17 directory names incl. '..', '.', '', names with separators, 10 address strings incl. invalid ones and two spellings of one package, metadata; 0..2 registry packages x 0..2 versions x source addresses x deprecations), 55% valid stream / 45% single-field mutations; for every opened bundle all remote/registry lookups and SourceForLocalPath over 14 path shapes (inside a package, aliases, '..' detours, outside, the root, relative); non-trivial = opened or refused for a directory-name reason; distinct by manifest"
+		rep.Rule = "manifest documents generated field-wise (format number, 0..3 packages over 18 directory names (one a string prefix of another) incl. '..', '.', '', names with separators, 10 address strings incl. invalid ones and two spellings of one package, metadata; 0..2 registry packages x 0..2 versions x source addresses x deprecations), 55% valid stream / 45% single-field mutations; for every opened bundle all remote/registry lookups and SourceForLocalPath over 17 path shapes (inside a package, aliases, '..' detours, outside, the root, relative); non-trivial = opened or refused for a directory-name reason; distinct by manifest"
 		r := NewRng(cfg.Seed)
 		n := cfg.N
 		reqs := make([]string, n)
@@ -310,7 +310,9 @@ func init() {
 				}
 				var shapes []string
 				for d := range dirs {
-					shapes = append(shapes, root+"/"+d, root+"/"+d+"/x/y", root+"/"+d+"/../"+d+"/x", root+"/"+d+"/", root+"/"+d+"/x/../..", root+"/./"+d+"/m")
+					shapes = append(shapes, root+"/"+d, root+"/"+d+"/x/y", root+"/"+d+"/../"+d+"/x", root+"/"+d+"/", root+"/"+d+"/x/../..", root+"/./"+d+"/m",
+						// siblings whose names merely extend a package directory's name (seed C18-c)
+						root+"/"+d+"x/y", root+"/"+d+".orig", root+"/"+d+"0/m")
 				}
 				shapes = append(shapes, root, root+"/..", root+"/nodir/x", root+"/terraform-sources.json", filepath.Dir(root)+"/sibling/x", root+"x/y", "/")
 				sortStrings(shapes)
@@ -335,6 +337,10 @@ func init() {
 					}
 					if !within(root, filepath.Clean(p)) || filepath.Clean(p) == root {
 						fail(fmt.Sprintf("path %s outside every package is accepted as belonging to the bundle", p))
+					} else if rel, rerr := filepath.Rel(root, filepath.Clean(p)); rerr == nil {
+						if _, ok := dirs[strings.Split(rel, "/")[0]]; !ok {
+							fail(fmt.Sprintf("path %s lies in no package directory but is accepted as belonging to the bundle", p))
+						}
 					}
 				}
 				// canonical tables
